@@ -20,37 +20,39 @@ package m3
 // Ghost state: inside = callers that loaded done == false and have not left;
 // other = callers counted in pending that are before the done check or past it;
 // stage = progress of the unique Close winner (0 nobody, 1 won and draining,
-// 2 saw pending == 0, 3 donech closed, 4 metCh closed).  The token `winner`
-// is taken by the successful CAS on done; stage is owned by its holder.
+// 2 saw pending == 0, 3 metCh closed); dclosed = the winner closed donech
+// (allowed at any time after winning: it only wakes blocked callers).  The
+// token `winner` is taken by the successful CAS on done; stage and dclosed are
+// owned by its holder.
 
 //@ protocol m3Shutdown
 //@   property C14
 //@   self r *reporter
 //@   shared done, pending, metCh, donech
-//@   ghost inside int, other int, stage int
+//@   ghost inside int, other int, stage int, dclosed bool
 //@   local myIn int, myOther int
 //@   counter inside by myIn
 //@   counter other by myOther
-//@   token winner owns stage acquire cas done when !before && after
+//@   token winner owns stage,dclosed acquire cas done when !before && after
 //@   threads (*reporter).reportCopyMetric, (*reporter).Flush, (*reporter).Close
 //@   inv @pending_counts_callers r.pending == inside + other && inside >= 0 && other >= 0
-//@   inv @stage_range 0 <= stage && stage <= 4
+//@   inv @stage_range 0 <= stage && stage <= 3
 //@   inv @done_iff_won r.done <==> stage >= 1
 //@   inv @winner_iff_done winner_held <==> stage >= 1
 //@   inv @drained_means_nobody_inside stage >= 2 ==> inside == 0
-//@   inv @queue_closed_last metCh_closed <==> stage >= 4
-//@   inv @donech_closed_after_drain donech_closed <==> stage >= 3
+//@   inv @queue_closed_last metCh_closed <==> stage >= 3
+//@   inv @donech_closed_by_winner (donech_closed <==> dclosed) && (dclosed ==> stage >= 1)
 //@   assume @fewer_than_2_63_callers r.pending < 9223372036854775807
 //@   rely @done_is_set_once old(r.done) ==> r.done
 //@   on add pending: other = (after == before + 1 ? other + 1 : other - myOther); inside = (after == before + 1 ? inside : inside - myIn); myOther = (after == before + 1 ? myOther + 1 : 0); myIn = (after == before + 1 ? myIn : 0)
 //@   on load done in (*reporter).reportCopyMetric, (*reporter).Flush: inside = (after ? inside : inside + myOther); myIn = (after ? myIn : myIn + myOther); other = (after ? other : other - myOther); myOther = (after ? myOther : 0)
 //@   on cas done: stage = (!before && after ? 1 : stage)
 //@   on load pending in (*reporter).Close: stage = (after == 0 && stage == 1 ? 2 : stage)
-//@   require close donech: @only_after_drain my_winner && stage == 2
-//@   on close donech: stage = 3
-//@   require close metCh: @only_after_donech my_winner && stage == 3
-//@   on close metCh: stage = 4
-//@   loop (*reporter).Close 1 invariant @draining my_winner && stage == 1
+//@   require close donech: @only_the_winner_once my_winner && !dclosed
+//@   on close donech: dclosed = true
+//@   require close metCh: @only_after_drain my_winner && stage == 2
+//@   on close metCh: stage = 3
+//@   loop (*reporter).Close 1 invariant @draining my_winner && stage == 1 && !dclosed
 //@   init NewReporter
 
 //@ pred repWF(r *reporter) { r != nil && r.metCh != nil && r.donech != nil && r.tagCache != nil && r.tagCache.entries != nil && r.batchSizeHistogram != nil && r.numBatchesCounter != nil && r.numMetricsCounter != nil && r.numWriteErrorsCounter != nil && r.numTagCacheCounter != nil && (forall i int :: 0 <= i && i < len(r.buckets) ==> r.buckets[i] != nil && is(r.buckets[i], tally.bucketPair)) }
@@ -96,3 +98,76 @@ package m3
 //@   case first: requires !r.done && r.pending == 0 && !closed(r.donech) && !closed(r.metCh)
 //@     ensures @closes_both_channels_then_joins result == nil && r.done && len(calls) == old(len(calls)) + 3 && calls[old(len(calls))] == evn("chan.close", r.donech) && calls[old(len(calls))+1] == evn("chan.close", r.metCh) && calls[old(len(calls))+2] == evn("wg.Wait:.wg", r)
 //@     loop 1 invariant @nothing_yet r.pending == 0 && r.done && quiet() && !closed(r.donech) && !closed(r.metCh)
+
+// ---------------------------------------------------------------------------
+// Cached handles: each Report* call hands exactly its own metric (name, kind,
+// tags as allocated, the reported value) to reportCopyMetric once.  A handle
+// may be used from many goroutines, so a report must not write state shared
+// between calls (frame: only the in-flight counter).
+
+//@ pred sent(r *reporter, name string, v m3thrift.MetricValue, tags []m3thrift.MetricTag, size int32, bucket string, bucketID string) { quiet() || (one_more() && calls[old(len(calls))] == evn("chan.send:14", r.metCh, name, v, r.now, tags, size, true, bucket, bucketID)) }
+
+//@ func (cachedMetric).ReportCount
+//@   property C13, C14
+//@   emits
+//@   requires repWF(c.reporter) && c.reporter.pending < 9223372036854775807 && (!c.reporter.done ==> !closed(c.reporter.metCh))
+//@   modifies c.reporter.pending
+//@   ensures @noop_after_close c.reporter.done ==> quiet()
+//@   ensures @own_metric_with_reported_value quiet() || (one_more() && calls[old(len(calls))] == evn("chan.send:14", c.reporter.metCh, c.metric.Name, c.metric.Value.MetricType, value, c.metric.Value.Gauge, c.metric.Value.Timer, c.reporter.now, c.metric.Tags, c.size, true, "", ""))
+
+//@ func (cachedMetric).ReportGauge
+//@   property C13, C14
+//@   emits
+//@   requires repWF(c.reporter) && c.reporter.pending < 9223372036854775807 && (!c.reporter.done ==> !closed(c.reporter.metCh))
+//@   modifies c.reporter.pending
+//@   ensures @noop_after_close c.reporter.done ==> quiet()
+//@   ensures @own_metric_with_reported_value quiet() || (one_more() && calls[old(len(calls))] == evn("chan.send:14", c.reporter.metCh, c.metric.Name, c.metric.Value.MetricType, c.metric.Value.Count, value, c.metric.Value.Timer, c.reporter.now, c.metric.Tags, c.size, true, "", ""))
+
+//@ func (cachedMetric).ReportTimer
+//@   property C13, C14
+//@   emits
+//@   requires repWF(c.reporter) && c.reporter.pending < 9223372036854775807 && (!c.reporter.done ==> !closed(c.reporter.metCh))
+//@   modifies c.reporter.pending
+//@   ensures @noop_after_close c.reporter.done ==> quiet()
+//@   ensures @own_metric_with_reported_value quiet() || (one_more() && calls[old(len(calls))] == evn("chan.send:14", c.reporter.metCh, c.metric.Name, c.metric.Value.MetricType, c.metric.Value.Count, c.metric.Value.Gauge, interval, c.reporter.now, c.metric.Tags, c.size, true, "", ""))
+
+//@ func (cachedHistogram).ValueBucket$2
+//@   property C13, C14
+//@   emits
+//@   requires repWF(rep) && rep.pending < 9223372036854775807 && (!rep.done ==> !closed(rep.metCh))
+//@   modifies rep.pending
+//@   ensures @noop_after_close rep.done ==> quiet()
+//@   ensures @bucket_metric_with_reported_count quiet() || (one_more() && calls[old(len(calls))] == evn("chan.send:14", rep.metCh, old(m.Name), old(m.Value.MetricType), value, old(m.Value.Gauge), old(m.Value.Timer), rep.now, old(m.Tags), size, true, bucket, bucketID))
+
+//@ func (cachedHistogram).DurationBucket$2
+//@   property C13, C14
+//@   emits
+//@   requires repWF(rep) && rep.pending < 9223372036854775807 && (!rep.done ==> !closed(rep.metCh))
+//@   modifies rep.pending
+//@   ensures @noop_after_close rep.done ==> quiet()
+//@   ensures @bucket_metric_with_reported_count quiet() || (one_more() && calls[old(len(calls))] == evn("chan.send:14", rep.metCh, old(m.Name), old(m.Value.MetricType), value, old(m.Value.Gauge), old(m.Value.Timer), rep.now, old(m.Tags), size, true, bucket, bucketID))
+
+//@ func (cachedHistogram).ValueBucket
+//@   property C13, C14
+//@   requires forall i int :: 0 <= i && i < len(h.cachedValueBuckets) ==> h.cachedValueBuckets[i].metric != nil
+//@   ensures @usable_handle result != nil
+//@   ensures @quiet quiet()
+
+//@ func (cachedHistogram).DurationBucket
+//@   property C13, C14
+//@   requires forall i int :: 0 <= i && i < len(h.cachedDurationBuckets) ==> h.cachedDurationBuckets[i].metric != nil
+//@   ensures @usable_handle result != nil
+//@   ensures @quiet quiet()
+
+//@ func (reportSamplesFunc).ReportSamples
+//@   property C14
+//@   inline
+
+//@ func (*reporter).timeLoop
+//@   property C14
+//@   emits
+//@   requires repWF(r)
+//@   modifies r.now
+//@   ensures @shutdown_state_untouched r.done == old(r.done) && r.pending == old(r.pending)
+//@   ensures @never_closes_a_channel closed(r.metCh) == old(closed(r.metCh)) && closed(r.donech) == old(closed(r.donech))
+//@   loop 1 invariant @quiet_so_far r.done == old(r.done) && r.pending == old(r.pending) && closed(r.metCh) == old(closed(r.metCh)) && closed(r.donech) == old(closed(r.donech))
